@@ -85,6 +85,7 @@ def histories(maxlen, nconn):
             elif i in opened:
                 rec(h + [("call", i)], opened, closed, used)
                 rec(h + [("close", i)], opened - {i}, closed | {i}, used)
+                rec(h + [("reset", i)], opened - {i}, closed | {i}, used)     # abortive end (peer reset)
     rec([], frozenset(), frozenset(), 0)
     return out
 
@@ -125,7 +126,10 @@ def run_histories(unit):
                 if op == "open":
                     proxies[i] = client.Proxy(uri)
                     proxies[i]._pyroBind()
-                elif op == "close":
+                elif op in ("close", "reset"):
+                    if op == "reset" and proxies[i]._pyroConnection is not None:
+                        proxies[i]._pyroConnection.sock.do_reset()
+                        proxies[i]._pyroConnection = None
                     proxies[i]._pyroRelease()
                     if i in m_session:
                         dead = m_session.pop(i)
